@@ -14,6 +14,12 @@
 (* Switch CheckThenAct = TRUE is the pinned commit: the two counted limits *)
 (* (sessions, receivers per host) are tested and enforced in different     *)
 (* steps; FALSE reserves the slot atomically with the test.                *)
+(* A /ws request carries a peer id.  A receiver that connects under a peer *)
+(* id that is already registered in the session replaces that hub entry    *)
+(* (last write wins); the replaced socket stays open until it disconnects  *)
+(* and keeps its slot until then.  Switch ReconnectSkipsSlot = TRUE (a     *)
+(* negative control): such a reconnect is admitted without a slot of its   *)
+(* own.                                                                    *)
 (***************************************************************************)
 EXTENDS Integers, FiniteSets, Sequences, TLC
 
@@ -23,7 +29,8 @@ CONSTANTS Reqs,          \* request ids
           MaxConns,      \* concurrent sockets, 0 = unlimited
           TTL,           \* session lifetime in ticks, 0 = never expires
           MaxTime,
-          CheckThenAct
+          Pids,          \* peer ids a /ws request may carry
+          CheckThenAct, ReconnectSkipsSlot
 
 SessIds == 1..Cardinality(Reqs)
 
@@ -42,14 +49,19 @@ VARIABLES
 
 vars == <<store, expiry, hostLeft, nextSess, reserved, now, rq, socks, recvRes, admitted, created>>
 
-Idle == [kind |-> "none", pc |-> "idle", s |-> 0, role |-> "none"]
+Idle == [kind |-> "none", pc |-> "idle", s |-> 0, role |-> "none", pid |-> 0, noslot |-> FALSE, replaced |-> FALSE]
 
 Init ==
   /\ store = {} /\ expiry = [s \in SessIds |-> 0] /\ hostLeft = {} /\ nextSess = 1 /\ reserved = 0
   /\ now = 0 /\ rq = [r \in Reqs |-> Idle] /\ socks = 0 /\ recvRes = [s \in SessIds |-> 0]
   /\ admitted = {} /\ created = [s \in SessIds |-> -1]
 
-Receivers(s) == Cardinality({r \in Reqs : rq[r].kind = "ws" /\ rq[r].pc = "connected" /\ rq[r].s = s /\ rq[r].role = "receiver"})
+ConnRecv(s) == {r \in Reqs : rq[r].kind = "ws" /\ rq[r].pc = "connected" /\ rq[r].s = s /\ rq[r].role = "receiver"}
+\* receiver sockets holding a slot of the per-session counter
+SlotHolders(s) == Cardinality({r \in ConnRecv(s) : ~rq[r].noslot})
+\* receivers registered in the hub (what the host sees; what the pinned commit counted through hub.List)
+Registered(s) == Cardinality({r \in ConnRecv(s) : ~rq[r].replaced})
+Receivers(s) == Cardinality(ConnRecv(s))
 Expired(s) == expiry[s] # 0 /\ now > expiry[s]
 
 \* ---- POST /session -----------------------------------------------------------------------
@@ -72,13 +84,13 @@ CreateAct(r) ==
   /\ UNCHANGED <<hostLeft, now, socks, recvRes, admitted>>
 
 \* ---- GET /ws ---------------------------------------------------------------------------------
-WsLookup(r, s, role) ==
+WsLookup(r, s, role, pid) ==
   /\ rq[r].pc = "idle" /\ s \in SessIds /\ created[s] >= 0
   /\ IF s \in store /\ ~Expired(s)
-       THEN /\ rq' = [rq EXCEPT ![r] = [kind |-> "ws", pc |-> "lookedup", s |-> s, role |-> role]]
+       THEN /\ rq' = [rq EXCEPT ![r] = [Idle EXCEPT !.kind = "ws", !.pc = "lookedup", !.s = s, !.role = role, !.pid = pid]]
             /\ admitted' = admitted \cup {<<r, s, now>>}
             /\ UNCHANGED store
-       ELSE /\ rq' = [rq EXCEPT ![r] = [kind |-> "ws", pc |-> "rejected", s |-> s, role |-> role]]
+       ELSE /\ rq' = [rq EXCEPT ![r] = [Idle EXCEPT !.kind = "ws", !.pc = "rejected", !.s = s, !.role = role, !.pid = pid]]
             /\ store' = store \ {s}                          \* lazy expiry deletes the entry
             /\ UNCHANGED admitted
   /\ UNCHANGED <<expiry, hostLeft, nextSess, reserved, now, socks, recvRes, created>>
@@ -93,9 +105,14 @@ WsConnLimit(r) ==
 WsRecvCheck(r) ==
   /\ rq[r].kind = "ws" /\ rq[r].pc = "acquired"
   /\ LET s == rq[r].s
+         present == ReconnectSkipsSlot /\ rq[r].role = "receiver"
+                    /\ \E q \in ConnRecv(s) : rq[q].pid = rq[r].pid /\ ~rq[q].replaced
          over == MaxReceivers > 0 /\ rq[r].role = "receiver"
-                 /\ Receivers(s) + (IF CheckThenAct THEN 0 ELSE recvRes[s]) >= MaxReceivers
-     IN IF over
+                 /\ (IF CheckThenAct THEN Registered(s) ELSE SlotHolders(s) + recvRes[s]) >= MaxReceivers
+     IN IF present
+          THEN /\ rq' = [rq EXCEPT ![r].pc = "checked", ![r].noslot = TRUE]
+               /\ UNCHANGED <<socks, recvRes>>
+          ELSE IF over
           THEN /\ rq' = [rq EXCEPT ![r].pc = "rejected"]
                /\ socks' = IF MaxConns > 0 THEN socks - 1 ELSE socks
                /\ UNCHANGED recvRes
@@ -106,8 +123,11 @@ WsRecvCheck(r) ==
 
 WsAdd(r) ==
   /\ rq[r].kind = "ws" /\ rq[r].pc = "checked"
-  /\ rq' = [rq EXCEPT ![r].pc = "connected"]
-  /\ recvRes' = IF ~CheckThenAct /\ rq[r].role = "receiver" THEN [recvRes EXCEPT ![rq[r].s] = @ - 1] ELSE recvRes
+  /\ rq' = [q \in Reqs |-> IF q = r THEN [rq[r] EXCEPT !.pc = "connected"]
+                           ELSE IF rq[r].role = "receiver" /\ q \in ConnRecv(rq[r].s) /\ rq[q].pid = rq[r].pid
+                                  THEN [rq[q] EXCEPT !.replaced = TRUE]      \* hub.Add: last write wins
+                                  ELSE rq[q]]
+  /\ recvRes' = IF ~CheckThenAct /\ rq[r].role = "receiver" /\ ~rq[r].noslot THEN [recvRes EXCEPT ![rq[r].s] = @ - 1] ELSE recvRes
   /\ UNCHANGED <<store, expiry, hostLeft, nextSess, reserved, now, socks, admitted, created>>
 
 Disconnect(r) ==
@@ -132,7 +152,8 @@ TimerFires(s) ==
   /\ UNCHANGED <<expiry, hostLeft, nextSess, reserved, now, recvRes, admitted, created>>
 
 Next == \/ \E r \in Reqs : CreateCheck(r) \/ CreateAct(r) \/ WsConnLimit(r) \/ WsRecvCheck(r) \/ WsAdd(r) \/ Disconnect(r)
-        \/ \E r \in Reqs, s \in SessIds, role \in {"sender", "receiver"} : WsLookup(r, s, role)
+        \/ \E r \in Reqs, s \in SessIds, role \in {"sender", "receiver"} :
+              \E pid \in (IF role = "sender" THEN {0} ELSE Pids) : WsLookup(r, s, role, pid)
         \/ Tick \/ \E s \in SessIds : TimerFires(s)
 
 Spec == Init /\ [][Next]_vars
@@ -146,7 +167,9 @@ AdmitOnlyWhileLive == \A a \in admitted : LET s == a[2] t == a[3] IN
 NoAdmitAfterHostLeft == \A s \in hostLeft : s \notin store
 \* limits
 SessionsBound == MaxSessions > 0 => Cardinality(store) <= MaxSessions
-ReceiversBound == MaxReceivers > 0 => \A s \in SessIds : Receivers(s) <= MaxReceivers
+\* the host never has more receivers registered than the limit (in the code as written not even more receiver sockets)
+ReceiversBound == MaxReceivers > 0 => \A s \in SessIds : Registered(s) <= MaxReceivers
+ReceiverSocketsBound == (MaxReceivers > 0 /\ ~CheckThenAct /\ ~ReconnectSkipsSlot) => \A s \in SessIds : Receivers(s) <= MaxReceivers
 ConnsBound == MaxConns > 0 => Cardinality({r \in Reqs : rq[r].kind = "ws" /\ rq[r].pc \in {"acquired", "checked", "connected"}}) <= MaxConns
 \* 0 means no limit: nothing is ever rejected by a limit that is off
 ZeroMeansOff == (MaxSessions = 0 /\ MaxReceivers = 0 /\ MaxConns = 0) =>
